@@ -17,11 +17,20 @@ CFG = {
     "rule": "seeded generator of programs (1-3 signals, 1-7 memos with bodies over add / mulc / ite / seq / tracked and "
             "untracked reads, biased to recent nodes so that diamonds, chains and conditional dependencies appear) x histories of "
             "5-30 set/read ops (values 0..2, so equal-value writes occur), both Arc* and arena handle families; a case is one program "
-            "+ history; distinct = distinct op text; trivial = tag `plain` only (no diamond/chain/dynamic/cut-off/untracked shape)",
-    "trusted": ["reactive_graph's Rust closures are driven through an interpreter of the same Expr grammar (harness/hx-c01/src/lib.rs)"],
+            "+ history; distinct = distinct op text; trivial = tag `plain` only (no diamond/chain/dynamic/cut-off/untracked shape). "
+            "API surface (tags): `acc` (half of the cases) = every read / write site picks its accessor from get / with / read, "
+            "untrack(get) / get_untracked / with_untracked / read_untracked / try_get_untracked, set / update / write / try_set; `ctor` = memo "
+            "constructors new / new_owning / new_with_compare(!=) of Memo and ArcMemo; `split` = signals made by signal() / arc_signal() "
+            "(ReadSignal + WriteSignal); `memoc` (a third of the cases) = leaf memos built with a COARSE comparator "
+            "(a.div_euclid(k) != b.div_euclid(k)), read right after writes that stay inside one bucket",
+    "trusted": ["reactive_graph's Rust closures are driven through an interpreter of the same Expr grammar (harness/hx-c01/src/lib.rs)",
+                "lean/LeptosModel/Model/ReactiveDriver.lean maps `acc` to nothing and a leaf `memoc k e` to `memo e` (argument in its header: a comparator is visible to subscribers only)"],
     "modelled": ["MemoInner::{mark_dirty,mark_check,update_if_necessary}", "signal mark_dirty", "Track::track", "SourceSet/SubscriberSet",
-                 "Observer / untrack", "ArcMemo::new compare (PartialEq)"],
+                 "Observer / untrack", "ArcMemo::new compare (PartialEq)",
+                 "by correspondence only: every Get/With/Read(+Untracked) accessor, Set/Update/Write accessors, ReadSignal/WriteSignal pairs, "
+                 "Memo/ArcMemo::{new,new_owning,new_with_compare}, user comparators coarser than equality (leaf memos)"],
     "assumptions": ["i64 arithmetic does not overflow on generated programs (small constants, bounded depth)",
+                    "memos with a comparator coarser than equality are exercised as leaves only (what their subscribers see is the comparator's business, not part of the property)",
                     "derived signals / MappedSignal / Signal::derive are plain closures without cache: they are from-scratch by construction and are not separately modelled"],
     "manifest": {
         "category": "proof",
